@@ -43,16 +43,31 @@ func Harness_C14_q_instance_ids() {
 	verif.Assume(c >= 1 && c < 1<<62)
 	a.idCount = c
 	a.UpdateIDs()
+	// what the property states: every instance id is non-zero and no two are equal
+	var ids []uint64
+	for _, s := range a.Services {
+		ids = append(ids, s.ID)
+		for _, ch := range s.Characteristics {
+			ids = append(ids, ch.ID)
+		}
+	}
+	for i := range ids {
+		verif.Assert(ids[i] != 0, "instance-id-non-zero")
+		for j := 0; j < i; j++ {
+			verif.Assert(ids[i] != ids[j], "instance-ids-unique")
+		}
+	}
+	// how this implementation achieves it (internal expectation, not an alarm by itself)
 	next := c
 	for _, s := range a.Services {
-		verif.Assert(s.ID == next, "service-id-sequential")
+		verif.Assert(s.ID == next, "inv:service-id-sequential")
 		next++
 		for _, ch := range s.Characteristics {
-			verif.Assert(ch.ID == next, "characteristic-id-sequential")
+			verif.Assert(ch.ID == next, "inv:characteristic-id-sequential")
 			next++
 		}
 	}
-	verif.Assert(a.idCount == next, "counter-advanced")
+	verif.Assert(a.idCount == next, "inv:counter-advanced")
 	// rebuilding the same shape yields the same ids (from the initial counter 1)
 	b1, b2 := iiShape("a"), iiShape("a")
 	b1.UpdateIDs()
@@ -86,7 +101,7 @@ func Harness_C14_q_accessory_ids() {
 	verif.Assert(len(cont.Accessories) == len(accepted), "container-holds-exactly-the-accepted")
 	for i, a := range accepted {
 		verif.Assert(a.ID != 0, "accessory-id-non-zero")
-		verif.Assert(cont.Accessories[i] == a, "container-order-is-insertion-order")
+		verif.Assert(cont.Accessories[i] == a, "inv:container-order-is-insertion-order")
 		for j := 0; j < i; j++ {
 			verif.Assert(accepted[j].ID != a.ID, "accessory-ids-unique")
 		}
